@@ -26,7 +26,8 @@ RULE = ("histories of 12-32 operations in a process that keeps its state from ca
         "object, a bound method and an http method caller, the configuration report) under a live configuration / the global "
         "one, coloured or no_color, with palette class or palette object, consumed whole / by lines / both in either order, on "
         "the long-lived object or on a fresh copy. Non-trivial = the history holds >=2 different configurations, a drop, and a "
-        "rendering of an enum / compound-palette object after the drop; distinct by operation-sequence hash.")
+        "rendering of an enum / compound-palette object after the drop; distinct by operation-sequence hash."
+        " Also: dictionaries with number / boolean / None keys; str-subclass cell values; enum syntax names that are ids of the colours configuration; user-defined centred field type.")
 ASSUMPTIONS = [
     "configuration maps in the histories part never point a component's syntax at a syntax declared only by another component's palette (known finding K1: such references resolve lazily; exercised by the part known_cross_component_reference)",
     "finding identity-keyed cache bugs relies on CPython reusing the address of a dropped object (frequent, not guaranteed); judging does not: the baseline comes from a process without history",
